@@ -89,7 +89,19 @@ func obligationScript(ob *Obligation, wantModel bool) string {
 	}
 	as = append(as, ob.Assume...)
 	if ob.Kind == "cover" || ob.Kind == "reach" {
-		return theU.Script(logicPrelude, as, nil, false)
+		// satisfiability check: quantified assumptions are left out (a model of the rest is
+		// found fast; an inconsistency that needs a quantified fact is not caught here)
+		var qf []*Term
+		for _, a := range as {
+			if !strings.Contains(a.Key(), "(forall ") {
+				qf = append(qf, a)
+			}
+		}
+		saved := theU.extraAxioms
+		theU.extraAxioms = ""
+		script := theU.Script(logicPrelude+"; vacuity guard (quantifier-free part)\n", qf, nil, false)
+		theU.extraAxioms = saved
+		return script
 	}
 	return theU.Script(logicPrelude, as, ob.Goal, wantModel)
 }
